@@ -96,7 +96,7 @@ fn num(v: &Val, f: &str) -> Option<u128> {
 
 pub fn run(ctx: &Ctx) -> i32 {
     let mut report = ctx.report("C08", "exploration");
-    report.rule = "scenarios begin(token) -> commit(token, final) (and interleaved pairs of transactions) against the simulated terminal: configured pre-authorisation amount over {0, 1, 10^k-1/10^k/10^k+1, 10^12-1, random}, final amount over {0, pre-1, pre, pre+1, 2^32-1, 2^32, 2^32+1, u64::MAX, u64::MAX-1, 2^63+pre, random}, currency 0..9999, tokens = CP437 text (any byte, no trailing NUL) of 0..200 characters, first receipt number 1..9999, the terminal's status fields over their full BCD ranges or absent. Oracle: the requests the terminal decodes with the reference codec: Reservation{amount=cfg, currency=cfg, reference 1F63=token}; PartialReversal{87=issued receipt, 04=max(pre-final,0) computed in u128, 49=cfg, reference 1F63=token} (payment type and reference prefix are recorded, not judged: the statement does not mention them); ledger balance reserved-released=min(pre,final); summary fields numerically equal to the last status information. Non-trivial = scenario in which the commit reached the terminal; distinct by hash of (config, token, final, receipt, status fields).".into();
+    report.rule = "scenarios begin(token) -> commit(token, final) (and interleaved pairs of transactions) against the simulated terminal: configured pre-authorisation amount over {0, 1, 10^k-1/10^k/10^k+1, 10^12-1, random}, final amount over {0, pre-1, pre, pre+1, 2^32-1, 2^32, 2^32+1, u64::MAX, u64::MAX-1, 2^63+pre, random}, currency 0..9999, tokens = CP437 text (any byte, no trailing NUL) of 0..200 characters, first receipt number 1..9999, the terminal's status fields over their full BCD ranges or absent; in a quarter of the scenarios the link fails once during the reservation (close/garbage/silence/NACK at a random packet), so that the client re-sends it and the terminal issues a second receipt number. Oracle: the requests the terminal decodes with the reference codec: Reservation{amount=cfg, currency=cfg, reference 1F63=token}; PartialReversal{87=issued receipt, 04=max(pre-final,0) computed in u128, 49=cfg, reference 1F63=token} (payment type and reference prefix are recorded, not judged: the statement does not mention them); ledger balance reserved-released=min(pre,final); summary fields numerically equal to the last status information. Non-trivial = scenario in which the commit reached the terminal; distinct by hash of (config, token, final, receipt, status fields).".into();
     report.exhaustive = Some(false);
     report.assumptions = vec!["string formatting of date/time/terminal id beyond numeric equality is not judged".into(), "64-bit usize (amounts are usize in the configuration)".into()];
     let schema = Arc::new(refcodec::zvt_schema());
@@ -170,7 +170,18 @@ fn one(r: &mut Report, rng: &mut Rng, schema: &Arc<refcodec::layout::Schema>) {
         sc.calls.push(Call::Commit(t.clone(), *f));
         let _ = i;
     }
+    // sometimes the link fails once during the reservation (at a random packet of that call): the client re-sends it,
+    // the terminal issues a new receipt number, and the commit must act on the receipt of the reservation that completed
+    let faulted = rng.chance(1, 4);
+    if faulted {
+        let kind = *rng.pick(&[FaultKind::Close, FaultKind::Garbage, FaultKind::Silence, FaultKind::Nack]);
+        sc.plan.faults.push(FaultSpec { call: 2, at: At::Tx(rng.below(4) as usize), kind });
+        sc.plan.push(2, Cmd::Reservation, ExPlan { pre: vec![Pre::Intermediate { status: 0x0e, timeout: 0 }], ..ExPlan::default() });
+    }
     let tr = run_scenario(&sc, schema);
+    if faulted {
+        r.count("scenarios_with_a_link_fault_during_the_reservation", 1);
+    }
     let commits_reached = tr.requests.iter().filter(|q| q.cmd == Cmd::PartialReversal).count();
     r.case(fnv(format!("{cfg:?}|{t1}|{t2}|{f1}|{f2}|{}|{statuses:?}", sc.first_receipt).as_bytes()), commits_reached > 0);
     let case = || case_json(&sc, &tr);
@@ -190,11 +201,12 @@ fn one(r: &mut Report, rng: &mut Rng, schema: &Arc<refcodec::layout::Schema>) {
     // reservations
     let reservations: Vec<&Request> = tr.requests.iter().filter(|q| q.cmd == Cmd::Reservation).collect();
     let begun: Vec<&String> = if two { vec![&t1, &t2] } else { vec![&t1] };
-    if reservations.len() != begun.len() {
+    if !faulted && reservations.len() != begun.len() {
         r.violation("C08: number of reservation requests differs from the number of begin calls", &format!("{} requests for {} calls", reservations.len(), begun.len()), case());
         return;
     }
-    for (q, t) in reservations.iter().zip(begun.iter()) {
+    let begun_for: Vec<&String> = if faulted { reservations.iter().map(|q| if reference_of(q).1.as_ref() == Some(&t2) { &t2 } else { &t1 }).collect() } else { begun.clone() };
+    for (q, t) in reservations.iter().zip(begun_for.iter()) {
         let problems = [
             (num(&q.val, "amount") != Some(pre as u128), "amount is not the configured pre-authorisation amount"),
             (num(&q.val, "currency") != Some(currency as u128), "currency is not the configured currency"),
@@ -212,7 +224,7 @@ fn one(r: &mut Report, rng: &mut Rng, schema: &Arc<refcodec::layout::Schema>) {
         return;
     }
     for (k, (q, (t, f))) in reversals.iter().zip(order.iter()).enumerate() {
-        let issued = tr.ledger.iter().find(|p| &p.token == t).map(|p| p.receipt);
+        let issued = tr.ledger.iter().rev().find(|p| &p.token == t).map(|p| p.receipt);
         let want_amount: u128 = (pre as u128).saturating_sub(*f as u128);
         let problems = [
             (num(&q.val, "amount") != Some(want_amount), format!("released amount is not max(pre - final, 0): got {:?}, pre {pre}, final {f}, expected {want_amount}", num(&q.val, "amount"))),
@@ -226,7 +238,7 @@ fn one(r: &mut Report, rng: &mut Rng, schema: &Arc<refcodec::layout::Schema>) {
             return;
         }
         // ledger balance
-        if let Some(p) = tr.ledger.iter().find(|p| &p.token == t) {
+        if let Some(p) = tr.ledger.iter().rev().find(|p| &p.token == t) {
             let released = p.released.unwrap_or(0);
             if p.reserved.saturating_sub(released) != (pre as u128).min(*f as u128) {
                 r.violation("C08 commit: ledger does not balance (reserved - released != min(pre, final))", &format!("reserved {} released {released} pre {pre} final {f}", p.reserved), case());
